@@ -34,7 +34,7 @@ for n in names:
                 res.setdefault("alarms", {})[c] = lines
                 print(n, c, verdict, lines[:2])
     finally:
-        sh("git reset -q --hard HEAD", "/repo")
+        sh("git reset -q --hard HEAD; git clean -fdq src tests", "/repo")
     quiet = all(v == "OK" for v in res["checks"].values())
     print(n, "baseline:", res.get("baseline", "")[-40:], "| all quiet" if quiet else "| ALARMS")
     out[n] = res
